@@ -18,7 +18,8 @@ PDFDocLow ==   \* bytes 24..31
   <<728, 711, 710, 729, 733, 731, 730, 732>>
 
 PDFDocDecodeByte(b) ==
-  CASE b >= 24 /\ b <= 31 -> PDFDocLow[b - 23]
+  CASE b < 24 /\ b \notin {9, 10, 13} -> Undefined          \* only TAB, LF and CR are assigned below 0x18
+    [] b >= 24 /\ b <= 31 -> PDFDocLow[b - 23]
     [] b = 127 -> Undefined
     [] b >= 128 /\ b <= 160 -> PDFDocHigh[b - 127]
     [] b = 173 -> Undefined
